@@ -28,7 +28,8 @@ Wraps == <<
   W("captured", "$(echo ", ")"), W("object", "!(echo ", ")"), W("uncaptured", "$[echo ", "]"), W("hidden", "![echo ", "]"), W("pyinproc", "$(echo @(", "))"), \* 11-15
   W("unary", "-", ""), W("not", "not ", ""), W("kwarg", "f(k=", ")"), W("starred", "[*", "]"), W("genexp", "sum(", " for i in y)"), \* 16-20
   W("dictcomp", "{i: ", " for i in y}"), W("await", "await ", ""), W("walrus", "(w := ", ")"), W("slice", "x[", ":]"), W("envexpr", "${", "}"), \* 21-25
-  W("attrcall", "a.b(", ").c"), W("compcond", "[i for i in y if ", "]"), W("callmacro", "f!(", ")"), W("binparen", "(1 + ", ")"), W("yieldparen", "(yield ", ")") \* 26-30
+  W("attrcall", "a.b(", ").c"), W("compcond", "[i for i in y if ", "]"), W("callmacro", "f!(", ")"), W("binparen", "(1 + ", ")"), W("yieldparen", "(yield ", ")"), \* 26-30
+  W("pyinhidden", "![a @(", ")]"), W("pyinobject", "!(a @(", "))"), W("injected", "$(a @$(", "))")                                \* 31-33
 >>
 C(id, head, unit, tail) == [id |-> id, head |-> head, unit |-> unit, tail |-> tail]
 Chains == <<
